@@ -78,7 +78,7 @@ def structural_mutations(blob: bytes, rng: random.Random, n: int) -> t.Iterator[
     for _ in range(n):
         nd = rng.choice(nodes)
         start, hl, ln = nd.offset, nd.hdr_len, nd.length
-        k = rng.randrange(14)
+        k = rng.randrange(15)
         if k == 0:  # zero-length content
             yield "zero-length", blob[:start] + der.tlv(nd.cls, nd.constructed, nd.number, b"") + blob[start + hl + ln :]
         elif k == 1:  # length octet rewritten
@@ -117,6 +117,14 @@ def structural_mutations(blob: bytes, rng: random.Random, n: int) -> t.Iterator[
             yield "empty-int-or-oid", consistent_rewrite(blob, nd, rng, force=rng.choice([b"\x02\x00", b"\x06\x00", b"\x02\x81\x00", b"\x06\x01\x80"]))
         elif k == 12:
             yield "truncate-inside", blob[: start + rng.randrange(hl + ln + 1)]
+        elif k == 13 and not nd.constructed:
+            # BER "constructed" form of a primitive value: the same tag with the constructed bit, wrapping the original
+            # TLV, nested 1 / 2 / 1200 / 3000 deep, ancestors re-encoded consistently
+            depth = rng.choice([1, 2, 40, 1200, 3000])
+            inner = der.tlv(nd.cls, False, nd.number, nd.content)
+            for _ in range(depth):
+                inner = der.tlv(nd.cls, True, nd.number, inner)
+            yield "constructed-nesting", consistent_rewrite(blob, nd, rng, force=inner)
         else:
             yield "append-garbage", blob + rng.randbytes(rng.choice([1, 16, 100]))
 
@@ -192,6 +200,12 @@ def keyid_boundary_mutations(b: Base, rng: random.Random) -> t.Iterator[t.Tuple[
         ("ec-p521", b"ECK5" + struct.pack("<I", 66) + b"\x01" * 132),
         ("ec-infinity", b"ECK1" + struct.pack("<I", 32) + bytes(64)),
         ("empty", b""),
+    ) + tuple(
+        (f"dh-consistent-keylen-{kl}", b"DHPB" + struct.pack("<I", kl) + (rng.getrandbits(8 * kl) | (1 << (8 * kl - 1)) | 1).to_bytes(kl, "big") + rng.randbytes(kl) + rng.randbytes(kl))
+        for kl in (1, 2, 128, 255, 257, 300, 512, 1024)
+    ) + tuple(
+        (f"ec-consistent-keylen-{magic.decode()}-{kl}", magic + struct.pack("<I", kl) + rng.randbytes(2 * kl))
+        for magic in (b"ECK1", b"ECK3") for kl in (1, 31, 33, 47, 49, 66, 200)
     ):
         yield f"keyinfo-{name}", rebuild(rg.enc_key_identifier(dict(kid, flags=kid["flags"] | 1, key_info=ki)))
         yield f"keyinfo-{name}-nonceflag", rebuild(rg.enc_key_identifier(dict(kid, flags=kid["flags"] & ~1, key_info=ki)))
